@@ -96,7 +96,25 @@ func vpNewLegacy(w http.ResponseWriter) (*vpTransport, error) {
 	return vpTakeTransport(), nil
 }
 
-func (t *vpTransport) SendAccept(seed bool) { t.accepts++ }
+// SendAccept writes the HTTP response head (and the seed) to the hijacked connection: it is a write on
+// the client connection like any packet, and other requests are served while it is in flight.
+func (t *vpTransport) SendAccept(seed bool) {
+	vpMu.Lock()
+	t.accepts++
+	t.inflight++
+	if t.inflight > 1 {
+		t.overlaps++
+	}
+	f := t.onAccept
+	t.onAccept = nil
+	vpMu.Unlock()
+	if f != nil {
+		f()
+	}
+	vpMu.Lock()
+	t.inflight--
+	vpMu.Unlock()
+}
 
 // Drain reads the client's first bytes; it fails when the connection is dropped before any arrive.
 // (It returns an error so that callers may or may not look at it.)
